@@ -27,7 +27,9 @@ ROLES = {
     "l1": [("Log", "LineList", {"x": "notice stdout", "y": "debug file /tmp/t x.log", "z": "info syslog", "d1": "notice file /var/log/tor/n.log",
                                 "DEFAULT": "DEFAULT"}),
            ("MapAddress", "LineList", {"x": "a.example b.example", "y": "*.c.example 10.0.0.1", "z": "d e", "d1": "x.example y.example",
-                                       "DEFAULT": "DEFAULT"})],
+                                       "DEFAULT": "DEFAULT"}),
+           ("Log", "LineList", {"x": "9052", "y": "9051 IsolateDestAddr", "z": "unix:/tmp/s.sock", "d1": "9050", "DEFAULT": "DEFAULT"})],
+    # (index 2 of l1: the texts of l2's table, so that a value copied from one list option to the other keeps its tokens)
     "l2": [("SocksPort", "PortLines", {"x": "9052", "y": "9051 IsolateDestAddr", "z": "unix:/tmp/s.sock", "d1": "9050",
                                        "DEFAULT": "DEFAULT"})],
 }
@@ -237,6 +239,9 @@ class Run(object):
                     val = [conc[t] for t in e["v"]]
                 spelled = name if (len(e["v"]) % 2) else name.lower()     # names are matched case-insensitively
                 setattr(self.config, spelled, val)
+            elif a == "AssignFrom":
+                # cfg.o = cfg.o2: the object that reading the other option returns
+                setattr(self.config, self.opt[e["o"]][0], getattr(self.config, self.opt[e["from"]][0]))
             elif a == "ListOp":
                 name, typ, conc = self.opt[e["o"]]
                 lst = getattr(self.config, name)
